@@ -53,7 +53,7 @@ def small_spec():
     spec = S.new_project()
     S.add_model(spec, 'pa', M('Alpha', [F('a', 'Char', max_length=20), F('b', 'Integer', null=True),
                                        F('c', 'Integer', db_index=True)]))
-    S.add_model(spec, 'pa', M('Beta', [F('a', 'Integer'), F('b', 'Char', max_length=10, null=True)]))
+    S.add_model(spec, 'pa', M('Beta', [F('a', 'Integer', unique=True), F('b', 'Char', max_length=10, null=True)]))
     return mutgen.ensure_uids(spec)
 
 
@@ -114,6 +114,8 @@ def alphabet():
               'db_table': 'pa_beta'})
     A.append({'kind': 'DeleteModel', 'app': 'pa', 'model': 'Beta'})
     A.append({'kind': 'SQLMutation', 'app': 'pa', 'tag': 'barrier'})
+    # appended last so that the indices stored in earlier replay files keep their meaning
+    chg('Beta', 'a', unique=False)
     return A
 
 
